@@ -74,7 +74,7 @@ theorem step_kind {s s' : St} {op : Op} {o : Out} (h : step s op = some (s', o))
     case whitelist => obtain ⟨_, _, rfl⟩ := h1; exact ⟨Nat.le_refl _, rfl, rfl, rfl, rfl⟩
     case removeWhitelist => obtain ⟨_, _, rfl⟩ := h1; exact ⟨Nat.le_refl _, rfl, rfl, rfl, rfl⟩
     case setTrusted f x =>
-      cases f <;> simp only [cfg, Option.pure_def, Option.some.injEq] at h1 <;> subst h1 <;>
+      cases f <;> simp only [Option.some.injEq] at h1 <;> subst h1 <;>
         exact ⟨Nat.le_refl _, rfl, rfl, rfl, rfl⟩
   case advance r =>
     split at h
